@@ -11,6 +11,7 @@ import (
 	"testing"
 	"time"
 
+	"github.com/containerd/nri/pkg/net/multiplex"
 	"github.com/containerd/nri/pkg/verifhook"
 	"pgregory.net/rapid"
 
@@ -28,12 +29,25 @@ type C10Stream struct {
 	Slack    int     `json:"slack,omitempty"` // extra bytes in the reader's buffer (len == cap)
 }
 
+// C10Reopen: before any traffic the connection is closed and the same id opened again (on one
+// or both ends); the stale handle is then closed again by StaleClosers goroutines x
+// StaleRepeat. All traffic of the case uses the new handles: what is written to the id must
+// arrive at the id's current incarnation.
+type C10Reopen struct {
+	Side         int  `json:"side"`
+	Conn         int  `json:"conn"`
+	Both         bool `json:"both,omitempty"`
+	StaleClosers int  `json:"stale_closers,omitempty"`
+	StaleRepeat  int  `json:"stale_repeat,omitempty"`
+}
+
 type C10Case struct {
 	QLen    int         `json:"qlen"`
 	Blocked bool        `json:"blocked,omitempty"` // muxes created WithBlockedRead, unblocked after Open
 	IDs     []uint32    `json:"ids"`
 	Streams []C10Stream `json:"streams"`
 	Delays  []Delay     `json:"delays,omitempty"`
+	Reopen  []C10Reopen `json:"reopen,omitempty"`
 }
 
 func genQLen(t *rapid.T) int {
@@ -74,6 +88,19 @@ func genC10(t *rapid.T) C10Case {
 		}
 	}
 	c.Delays = genDelays(t, 6)
+	if rapid.IntRange(0, 3).Draw(t, "reopen") == 0 {
+		n := rapid.IntRange(1, min(3, len(c.IDs))).Draw(t, "nreopen")
+		first := rapid.IntRange(0, len(c.IDs)-1).Draw(t, "reopen_conn")
+		for i := 0; i < n; i++ {
+			c.Reopen = append(c.Reopen, C10Reopen{
+				Side:         rapid.IntRange(0, 1).Draw(t, "ro_side"),
+				Conn:         (first + i) % len(c.IDs),
+				Both:         rapid.IntRange(0, 2).Draw(t, "ro_both") == 0,
+				StaleClosers: rapid.SampledFrom([]int{0, 1, 1, 2, 4}).Draw(t, "ro_closers"),
+				StaleRepeat:  rapid.SampledFrom([]int{1, 1, 2, 3}).Draw(t, "ro_repeat"),
+			})
+		}
+	}
 	return c
 }
 
@@ -155,6 +182,46 @@ func runC10Once(c C10Case) (ev.Outcome, bool) {
 	defer r.p.shutdown()
 	remove := installDelays(c.Delays, nil)
 	defer remove()
+
+	// prologue: close and re-open ids, close the stale handles again; no traffic yet
+	for _, ro := range c.Reopen {
+		if ro.Conn < 0 || ro.Conn >= len(c.IDs) || ro.Side < 0 || ro.Side > 1 {
+			continue
+		}
+		sides := []int{ro.Side}
+		if ro.Both {
+			sides = append(sides, 1-ro.Side)
+		}
+		var stale []net.Conn
+		for _, sd := range sides {
+			old := r.p.conns[sd][ro.Conn]
+			_ = old.Close()
+			stale = append(stale, old)
+		}
+		for _, sd := range sides {
+			nc, err := r.p.m[sd].Open(multiplex.ConnID(c.IDs[ro.Conn]))
+			if err != nil || nc == nil {
+				o := ev.Outcome{Classes: c10Classes(c)}
+				o.Fail = fmt.Sprintf("re-Open(%d) on mux %d returned (%v, %v)", c.IDs[ro.Conn], sd, nc, err)
+				return o, false
+			}
+			r.p.conns[sd][ro.Conn] = nc
+		}
+		var cwg sync.WaitGroup
+		for _, h := range stale {
+			for k := 0; k < ro.StaleClosers; k++ {
+				cwg.Add(1)
+				go func(h net.Conn) {
+					defer cwg.Done()
+					defer r.recoverPanic("repeated Close of a stale handle")
+					for j := 0; j < max(1, ro.StaleRepeat); j++ {
+						_ = h.Close()
+					}
+				}(h)
+			}
+		}
+		cwg.Wait()
+	}
 
 	var wg sync.WaitGroup
 	for si := range c.Streams {
@@ -540,6 +607,15 @@ func c10Classes(c C10Case) []string {
 	}
 	if c.Blocked {
 		cls = append(cls, "blocked_start")
+	}
+	if len(c.Reopen) > 0 {
+		cls = append(cls, "reopened_id")
+		for _, ro := range c.Reopen {
+			if ro.StaleClosers > 0 {
+				cls = append(cls, "stale_handle_closed_again")
+				break
+			}
+		}
 	}
 	if len(c.Delays) > 0 && verifhook.Enabled {
 		cls = append(cls, "hook_delays")
